@@ -152,6 +152,19 @@ func aimedAMs(caps amCaps) []*amSchema {
 				fld("view", true, withDefault(rf("View"), map[string]any{"show": false, "title": "", "rows": num(0)})),
 				fld("otherView", false, withDefault(rf("View"), map[string]any{"show": true, "title": "custom", "rows": num(9)})),
 			)
+			// struct defaults that override a union member, designating its scalar branches and its list branch
+			if caps.Unions {
+				target := &amObject{"Target", st(
+					fld("label", true, withDefault(ty("string"), "none")),
+					fld("targets", true, un(ty("string"), ty("bool"), arr(ty("string")))),
+					fld("limit", true, un(ty("string"), tyw("int", intW))),
+				)}
+				objs = append(objs, target, &amObject{"Targets", st(
+					fld("single", true, withDefault(rf("Target"), map[string]any{"targets": "all", "limit": num(10)})),
+					fld("multiple", true, withDefault(rf("Target"), map[string]any{"targets": []any{"a", "b"}, "limit": "unlimited"})),
+					fld("flag", false, withDefault(rf("Target"), map[string]any{"targets": true, "limit": "x"})),
+				)})
+			}
 		}
 		out = append(out, mk(objs...))
 	}
@@ -186,6 +199,11 @@ func aimedAMs(caps amCaps) []*amSchema {
 		}
 		if caps.NonStringConst && caps.Consts {
 			flds = append(flds, fld("magic", true, konst(int64(9007199254740993))))
+			if caps.Format == "jsonschema" {
+				scale := konst(int64(39))
+				scale.Width = "float64"
+				flds = append(flds, fld("scale", true, scale), fld("step", true, konst(int64(7))))
+			}
 		}
 		out = append(out, mk(&amObject{"BigNumbers", st(flds...)}))
 	}
